@@ -121,7 +121,7 @@ def enumerate_programs(ctx, jobs, emit):
     def one(i, job):
         try:
             r = ctx.tlc("LangGen", cfg_text=gen_cfg(job[0], job[1], emit), xss="256m", sdir=dirs[i],
-                        workers=workers, timeout=ctx.pick(600, 3000))
+                        workers=workers, timeout=ctx.pick(1200, 3000))
             out[job] = r.lines.get(tag, [])
         except Exception as e:  # noqa
             errs.append(e)
@@ -365,6 +365,12 @@ def named_programs():
         Call("first", Call("pair", Lam(["a"], a), Lit(1))),
         Call("call", Lam([], Lit(5))),
         Call(Lam([], Lit(5))),
+        # a partial application made before a lambda is entered and applied inside it: the VM swaps the parameter
+        # slots for the partial's snapshot during the call and must put them back
+        Call("call", Lam(["b"], Call("call", Lam(["a"], Call("sub", Call("call", b, Lit(2)), a)), Lit(5))), Call("sub", Lit(1))),
+        Call("call", Lam(["b"], Call("call", Lam(["a"], Call("sub", Call("call", b, Lit(2)), a)), Lit(5))),
+             Call("call", Lam(["b", "a"], Call("sub", b, a)), Lit(1))),
+        Call("call", Lam(["a"], Call("pair", Call("apply1", Call("sub", Lit(1)), Lit(2)), a)), Lit(5)),
         # escaping closures: the same lambda literal activated twice, closure of the first activation called later (U1)
         Call("call", Lam(["a"], Call("pair", Call("call", a, Lit(1)), Call("call", a, Lit(2)))),
              Lam(["b"], Lam(["a"], Call("sub", a, b)))),
